@@ -213,6 +213,9 @@ namespace pika::split_detail {
             // shared state by now.
             os.reset();
 
+#if defined(PIKA_VERIF)
+            PIKA_VERIF_POINT(301, this);
+#endif
             predecessor_done = true;
 
             {
@@ -248,9 +251,15 @@ namespace pika::split_detail {
                 // the vector must see predecessor_done = true after
                 // taking the lock in their threads and will not add
                 // continuations to the vector.
+#if defined(PIKA_VERIF)
+                PIKA_VERIF_POINT(302, this);
+#endif
                 std::lock_guard<mutex_type> l{mtx};
             }
 
+#if defined(PIKA_VERIF)
+            PIKA_VERIF_POINT(303, this);
+#endif
             if (!continuations.empty())
             {
                 for (auto const& continuation : continuations) { continuation(); }
@@ -284,6 +293,9 @@ namespace pika::split_detail {
         template <typename Receiver>
         void add_continuation(Receiver& receiver)
         {
+#if defined(PIKA_VERIF)
+            PIKA_VERIF_POINT(304, this);
+#endif
             if (predecessor_done)
             {
                 // If we read predecessor_done here it means that one of
@@ -299,6 +311,9 @@ namespace pika::split_detail {
                 // If predecessor_done is false, we have to take the
                 // lock to potentially add the continuation to the
                 // vector of continuations.
+#if defined(PIKA_VERIF)
+                PIKA_VERIF_POINT(305, this);
+#endif
                 std::unique_lock<mutex_type> l{mtx};
 
                 if (predecessor_done)
